@@ -34,8 +34,8 @@ STUBS = [
     'S >= 0 descending, S[0] = 0 iff A = 0',
     'symx/lapack.py: np.linalg.qr -> Q R = A, Q isometry (unitary if square), R upper triangular with real diagonal (geqrf), '
     'r_jj = 0 iff column j of A vanishes',
-    'symx/lapack.py: qr_li -> symbolic rank k in 1..min(M,N) (0 for a zero block), Q R = A exactly, Q isometry, R upper right, '
-    'real diagonal with |r_jj| > cutoff',
+    'symx/lapack.py: qr_li -> keeps k = generic rank of the block (rank is a harness input: blocks built as X.Y), Q R = A exactly, '
+    'Q isometry, R in row echelon form on the generic pivot columns, real diagonal with |r_jj| > cutoff on leading pivots',
     'symx/lapack.py: np.linalg.eigh -> H V = V diag(W), V unitary, W real ascending (H from the UPLO triangle); eigvalsh -> same W',
     'symx/lapack.py: np.linalg.eig -> A V = V diag(W), columns of V normalised; eigvals -> same W',
     'symx/lapack.py: scipy.linalg.expm -> fresh symbols, functional per path, expm(0) = 1',
@@ -49,6 +49,8 @@ ASSUMPTIONS = [
     'this restricts exact rank deficiency to zero columns)',
     'every stub is functional per path (same block -> same factors): LAPACK is deterministic',
     'cutoff > 0 symbolic; the comparison S > cutoff is a fork (no rounding)',
+    'cutoff cases of qr / lq and svd[cut=f]: every stored block has exactly the rank chosen by the harness (its generic rank) and its '
+    'non-vanishing singular values / pivots exceed the fixed cutoff 1e-10',
 ]
 
 # ------------------------------------------------------------------------------------------------------------------
@@ -108,7 +110,7 @@ def D(T):
     return T.to_ndarray()
 
 
-def build(ctx, tier, struct, mods=None, qconjs=(1, -1), cplx=False, subset='all', qtotal='zero', hermitian=False):
+def build(ctx, tier, struct, mods=None, qconjs=(1, -1), cplx=False, subset='all', qtotal='zero', hermitian=False, lowrank=False):
     """the input matrix; returns (A, chinfo)"""
     if tier == 'A':
         sh = SHAPES_A[struct]
@@ -128,6 +130,8 @@ def build(ctx, tier, struct, mods=None, qconjs=(1, -1), cplx=False, subset='all'
             l1 = Bd.leg(ctx, 'l1', s1, ch, q1, tier='B', concrete_charges=c1)
         qt = np.array(st['qtotal'], dtype=np.int64)
     A = Bd.tensor(ctx, 'a', [l0, l1], qt, cplx=cplx, labels=['vL', 'vR'], subset=subset)
+    if lowrank:
+        set_block_ranks(ctx, A, cplx)
     if hermitian:
         Ad = A.conj().itranspose()
         Ad.iset_leg_labels(['vL', 'vR'])
@@ -139,6 +143,34 @@ def build(ctx, tier, struct, mods=None, qconjs=(1, -1), cplx=False, subset='all'
     if not (A.legs[0].is_blocked() and A.legs[1].is_blocked()):
         ctx.note('inputs_with_unblocked_leg')
     return A, ch
+
+
+def set_block_ranks(ctx, A, cplx):
+    """the rank of every stored block becomes a harness input: a symbolic selector r in 0..min(m,n) per block; for r below
+    min(m,n) the block is replaced by a product X.Y with inner dimension r (r = 0: a stored block of zeros), so that the
+    symbolic run (stubs keep the generic rank, symx.lapack.generic_rank) and the concrete replay (a true rank-r block for the
+    real LAPACK) agree on the number of kept columns / singular values"""
+    for i, (blk, qi) in enumerate(zip(A._data, A._qdata)):
+        m, n = blk.shape
+        tag = 'a' + ''.join(str(int(q)) for q in qi)
+        r = ctx.choice('rk_' + tag, min(m, n) + 1)
+        ctx.note(f'block_rank_{r}_of_{min(m, n)}')
+        if r == min(m, n):
+            continue
+        if r == 0:
+            A._data[i] = np.zeros((m, n), dtype=blk.dtype) if not ctx.symbolic else _obj_zeros((m, n))
+            continue
+        X = ctx.array('X' + tag, (m, r), cplx=cplx)
+        Y = ctx.array('Y' + tag, (r, n), cplx=cplx)
+        A._data[i] = np.dot(X, Y)
+
+
+def _obj_zeros(shape):
+    from symx.scalars import R
+    z = np.empty(shape, dtype=object)
+    for idx in np.ndindex(*shape):
+        z[idx] = R({})
+    return z
 
 
 def qvalue(ctx, tier, name, ch, const=1):
@@ -245,7 +277,8 @@ QR_COMBOS = ((False, 1, [None, None]), (True, -1, ['iL', 'iR']), (True, 1, [None
 def svd_case(ctx, tier, struct, mods=None, qconjs=(1, -1), cplx=False, subset='all', qtotal='zero', full_matrices=False,
              compute_uv=True, cutoff=False, qlr=None):
     N = npc()
-    A, ch = build(ctx, tier, struct, mods, qconjs, cplx, subset, qtotal)
+    fixed = cutoff == 'fixed'  # fixed small cutoff and blocks of chosen rank: the kept number is determined by the inputs
+    A, ch = build(ctx, tier, struct, mods, qconjs, cplx, subset, qtotal, lowrank=fixed)
     dA = D(A)
     modes = tuple(qlr) if qlr else QLR_MODES
     mode = modes[ctx.choice('qLR', len(modes))]
@@ -258,9 +291,9 @@ def svd_case(ctx, tier, struct, mods=None, qconjs=(1, -1), cplx=False, subset='a
         qR = ch.make_valid(A.qtotal - qL + 1)
     exp_L = ch.make_valid(A.qtotal - A.qtotal) if mode == 'none' else (qL if qL is not None else ch.make_valid(A.qtotal - qR))
     exp_R = A.qtotal if mode == 'none' else (qR if qR is not None else ch.make_valid(A.qtotal - qL))
-    cut = ctx.real('cutoff', pos=True) if cutoff else None
+    cut = (1.e-10 if fixed else ctx.real('cutoff', pos=True)) if cutoff else None
     kw = dict(qtotal_LR=[qL, qR], inner_labels=lab, inner_qconj=inner_qconj)
-    tag = f'svd[fm={int(full_matrices)},uv={int(compute_uv)},cut={int(cutoff)}]'
+    tag = f'svd[fm={int(full_matrices)},uv={int(compute_uv)},cut={"f" if fixed else int(bool(cutoff))}]'
 
     # documented argument errors
     if full_matrices and ((not compute_uv) or cutoff):
@@ -285,6 +318,9 @@ def svd_case(ctx, tier, struct, mods=None, qconjs=(1, -1), cplx=False, subset='a
         S0 = None
         ctx.prove(A.stored_blocks == 0, f'{tag}: "no singular values" is raised without cutoff only for a tensor without stored blocks')
         ctx.note('svd_of_empty_tensor_raises')
+    if fixed and S0 is not None:
+        for s in S0:  # the non-vanishing singular values of the rank-r blocks are well above the fixed cutoff (ASSUMPTIONS)
+            ctx.assume(ctx.Or(s == 0, s > cut))
     try:
         res = N.svd(A, full_matrices, compute_uv, cut, **kw)
     except RuntimeError:
@@ -364,13 +400,13 @@ def svd_case(ctx, tier, struct, mods=None, qconjs=(1, -1), cplx=False, subset='a
 def qr_case(ctx, tier, struct, mods=None, qconjs=(1, -1), cplx=False, subset='all', qtotal='zero', mode='reduced', cutoff=False,
             pos_diag=False, lq=False):
     N = npc()
-    A, ch = build(ctx, tier, struct, mods, qconjs, cplx, subset, qtotal)
+    A, ch = build(ctx, tier, struct, mods, qconjs, cplx, subset, qtotal, lowrank=bool(cutoff))
     dA = D(A)
     combos = QR_COMBOS if tier == 'B' else QR_COMBOS[:2]
     use_qQ, inner_qconj, lab = combos[ctx.choice('opt', len(combos))]
     qQ = qvalue(ctx, tier, 'qQ', ch) if use_qQ else None
-    # the cutoff of qr is a fixed small number: the stub forks on the number of kept columns (exact rank), and in the
-    # concrete replays nothing of a generic block is discarded, so Q R == A holds to rounding in both modes
+    # the cutoff of qr is a fixed small number and the rank of every stored block is an input (set_block_ranks): the stub
+    # keeps the generic rank, the real qr_li keeps the same number of columns of the true rank-r block, Q R == A to rounding
     cut = 1.e-10 if cutoff else None
     fname = 'lq' if lq else 'qr'
     tag = f'{fname}[mode={mode},cut={int(cutoff)},pos={int(pos_diag)}]'
@@ -706,13 +742,17 @@ def CASES(tier, seed):
         if name in seen:
             return
         seen.add(name)
-        cases.append(dict(name=name, fn=fn, params=params, opts=dict(O)))
+        o = dict(O)
+        if params.get('cutoff') == 'fixed':
+            o['generic_rank_exact'] = True
+        cases.append(dict(name=name, fn=fn, params=params, opts=o))
 
     def c_(cplx):
         return 'c' if cplx else 'r'
 
     def svd(tr, st, cplx=False, fm=False, uv=True, cut=False, **kw):
-        add('svd_case', f'{tr}.svd[{st},{kw.pop("tag", c_(cplx))},fm={int(fm)},uv={int(uv)},cut={int(cut)}]', tier=tr, struct=st, cplx=cplx,
+        ctag = 'f' if cut == 'fixed' else int(bool(cut))
+        add('svd_case', f'{tr}.svd[{st},{kw.pop("tag", c_(cplx))},fm={int(fm)},uv={int(uv)},cut={ctag}]', tier=tr, struct=st, cplx=cplx,
             full_matrices=fm, compute_uv=uv, cutoff=cut, **kw)
 
     def qr(tr, st, cplx=False, mode='reduced', cut=False, pos=False, lq=False, **kw):
@@ -745,6 +785,11 @@ def CASES(tier, seed):
     svd('B', 'z3', False, **B)
     svd('B', 'z3', False, fm=True, **B)
     svd('B', 'u1z2', False, **B)
+    # fixed cutoff, rank of every block chosen by the harness (kept number input determined)
+    svd('B', 'u1', False, cut='fixed', **B)
+    svd('B', 'u1', True, cut='fixed', uv=False, **B)
+    svd('B', 'u1_unblocked', False, cut='fixed', **B)
+    svd('B', 'u1_qtot', False, cut='fixed', **B)
     for mode, pos in itertools.product(('reduced', 'complete'), (False, True)):
         qr('B', 'u1', False, mode, False, pos, **B)
         qr('B', 'u1', False, mode, False, pos, lq=True, **B)
@@ -759,6 +804,9 @@ def CASES(tier, seed):
     qr('B', 'u1_unblocked', False, lq=True, **B)
     qr('B', 'u1_qtot', False, **B)
     qr('B', 'u1_qtot', False, 'complete', False, True, **B)
+    qr('B', 'u1_qtot', False, 'reduced', True, False, **B)  # 2x2 block of chosen rank 0, 1, 2 with cutoff
+    qr('B', 'u1_qtot', True, 'reduced', True, True, **B)
+    qr('B', 'u1_qtot', False, 'reduced', True, False, lq=True, **B)
     qr('B', 'u1_qtot', True, **B)
     qr('B', 'z2', False, **B)
     qr('B', 'z2', False, 'complete', **B)
@@ -811,6 +859,7 @@ def CASES(tier, seed):
             svd('A', 'a22', fm=True, **lite, **kw)
             if mods == [1] or thorough:
                 svd('A', 'a22', cut=True, **lite, **kw)
+            svd('A', 'a22', cut='fixed', **dict(qlr=['none', 'both']), **kw)
             qr('A', 'a22', mode='complete', **kw)
             if mods == [1] or thorough:
                 qr('A', 'a22', pos=True, **kw)
@@ -838,7 +887,8 @@ def CASES(tier, seed):
     sq_B = ['sq_u1', 'sq_u1_unblocked', 'sq_z3', 'sq_u1z2']
     for st in rect_B:
         for cplx in (False, True):
-            for fm, uv, cut in ((False, True, False), (True, True, False), (False, False, False), (False, True, True), (False, False, True)):
+            for fm, uv, cut in ((False, True, False), (True, True, False), (False, False, False), (False, True, True), (False, False, True),
+                                (False, True, 'fixed')):
                 svd('B', st, cplx, fm, uv, cut, **B)
             for mode, cut, pos in itertools.product(('reduced', 'complete'), (False, True), (False, True)):
                 if mode == 'complete' and cut:
